@@ -237,7 +237,7 @@ def build_and_audit(pid):
     for m in re.finditer(r"(?m)^'(.+)' does not depend on any axioms", txt):
         axioms[m.group(1)] = []
     stmts = {}
-    for m in re.finditer(r"(?ms)^@([A-Za-z0-9_\.']+) : (.*?)(?=^\S|\Z)", txt):
+    for m in re.finditer(r"(?ms)^@?([A-Za-z0-9_\.']+) : (.*?)(?=^\S|\Z)", txt):
         stmts[m.group(1)] = ' '.join(m.group(2).split())
     for n in names:
         key = n if n in axioms else next((k for k in axioms if k.endswith('.' + n) or k == n), None)
